@@ -424,6 +424,8 @@ def _finding_of(w):
             return 'mrh-solve-slope'
         if w.get('dependency') and w.get('stage') == 'update':
             return 'update-order'
+        if w.get('launch_changed'):
+            return 'solve-changes-launch'
         return None
     if c == 'image-solve-focus':
         return 'image-solve-slope' if w.get('same_medium') is False else None
@@ -487,6 +489,16 @@ REPLAYS = {
                                      'ops': _BASE + [['set_conic', -1.0, 4], ['set_radius', 60.0, 4]]},
     'conic-pickup-plane-source': {'ap': ['EPD', 10.0], 'nbuild': 7, 'ops': _BASE + [['pickup', 4, 'conic', 1, 1.0, 0.0]]},
     'set-index-mirror-media': {'ap': ['EPD', 5.0], 'nbuild': 6, 'ops': _MIRROR + [['set_index', 1.41, 1]]},
+    'solve-changes-launch': {'ap': ['imageFNO', 5.0], 'nbuild': 8, 'ops': [
+        ['add', 0, 'standard', INF, 0.0, [], INF, 'air', False, 0.0, 0.0, 0.0, 0.0],
+        ['wavelength', 0.55, True],
+        ['add', 1, 'standard', 50.0, 0.0, [], 5.0, ['ideal', 1.5], True, 0.0, 0.0, 0.0, 0.0],
+        ['add', 2, 'standard', -50.0, 0.0, [], 10.0, 'air', False, 0.0, 0.0, 0.0, 0.0],
+        ['add', 3, 'standard', INF, 0.0, [], 5.0, 'air', False, 0.0, 0.0, 0.0, 0.0],
+        ['add', 4, 'standard', 80.0, 0.0, [], 3.0, ['ideal', 1.6], False, 0.0, 0.0, 0.0, 0.0],
+        ['add', 5, 'standard', -70.0, 0.0, [], 30.0, 'air', False, 0.0, 0.0, 0.0, 0.0],
+        ['add', 6, 'standard', INF, 0.0, [], 0.0, 'air', False, 0.0, 0.0, 0.0, 0.0],
+        ['solve', 3, 1.0]]},
 }
 
 
